@@ -181,7 +181,7 @@ def gen_cases(rng, quick, mult=1):
     """-> dict of case lists; every case is JSON-serialisable"""
     cases = {'w': [], 'a': [], 'b': [], 'r': []}
     kinds = ['rand', 'rand', 'mixed', 'negmax', 'levels', 'const', 'zero', 'single']
-    n_w = (40 if quick else 400) * mult
+    n_w = (40 if quick else 1200) * mult
     for p in W_BITS:
         for t in range(n_w):
             kind = kinds[t % len(kinds)]
@@ -199,7 +199,7 @@ def gen_cases(rng, quick, mult=1):
             cases['w'].append({'q': 'w', 'bits': p, 'kind': 'sweep', 'k': k,
                                'w': [weight_sweep_channel(p, k)], 'shape4': False})
     # activations
-    n_a = (120 if quick else 1500) * mult
+    n_a = (120 if quick else 3000) * mult
     for p in A_BITS:
         clips = list(CLIPS) + [to32(math.exp(rng.uniform(math.log(0.05), math.log(1000.0))))
                                for _ in range(3 if quick else 12)]
@@ -230,7 +230,7 @@ def gen_cases(rng, quick, mult=1):
             cases['a'].append({'q': 'a', 'bits': p, 'clip': clip, 'kind': 'sweep', 'k': k,
                                'x': pact_sweep_points(p, k, clip)})
     # bias
-    n_b = (150 if quick else 1500) * mult
+    n_b = (150 if quick else 6000) * mult
     for t in range(n_b):
         kind = ['rand', 'zero-scale', 'tiny-scale', 'grid', 'mono'][t % 5]
         cout = rng.choice([1, 3, 6])
